@@ -51,6 +51,9 @@ PAYLOADS = {
     'short': b'hello hello',
     'text2k': (b'The quick brown fox jumps over the lazy dog. ' * 46)[:2048],
     'rand300': pseudo_random(300),
+    # a short text whose zlib stream, read as raw deflate after a damaged header, happens to
+    # reach a final block early
+    'fallback38': b'eebah/<agfb<echhc>fbcb dcfgb/cc<bae dd',
 }
 
 
@@ -150,6 +153,8 @@ def jobs(tier, seed):
     for pn in ('one', 'short', 'x1f'):
         for cod in ('gzip9', 'zlib', 'raw'):
             js.append(dict(kind='corrupt', payload=pn, coding=cod, tier=tier))
+    for cod in ('zlib1', 'zlib', 'zlib-w9'):
+        js.append(dict(kind='corrupt', payload='fallback38', coding=cod, tier=tier))
     # two responses decoded by the same Stream object (persistent connection): the coding
     # state of the first must not leak into the second
     for c1 in CODINGS:
@@ -180,6 +185,7 @@ def run_job(job):
     declared, wire = encode(payload, job['coding'])
     tag = '%s/%s' % (job['payload'], job['coding'])
     n = len(wire)
+    checksummed = job['coding'].startswith(('gzip', 'zlib'))
 
     def check(wire_bytes, cuts, label):
         pieces = split(wire_bytes, cuts)
@@ -203,11 +209,23 @@ def run_job(job):
         elif ref[0] == 'ok' and got != ref:
             v = 'decoded %s, reference decoder gives %s' % (show(got), show(ref))
             cls = 'differs-from-reference'
+        elif label != 'valid' and checksummed and wire_bytes and got[0] == 'ok' \
+                and got[1] != payload and not (declared == 'gzip' and wire_bytes[:1] != b'\x1f'):
+            # (a "gzip" body that does not start with the gzip magic is passed through as a
+            # mislabelled identity body: documented tolerance, DESIGN.md section 6)
+            # the stream was produced with a checksum (gzip CRC-32, zlib Adler-32): a damaged
+            # copy either still decodes to the original payload (damage in an unused header
+            # field) or is an error - never other content
+            v = ('damaged %s stream returned as %d bytes of other content instead of a '
+                 'protocol error' % (job['coding'], len(got[1])))
+            cls = 'corrupt-accepted'
         if v and len(res['violations']) < 3:
             res['violations'].append(dict(
                 violation='%s [%s %s]' % (v, tag, label),
                 signature='C19:%s:%s:%s' % (tag, label.split('@')[0], cls),
-                declared=declared, wire=wire_bytes.decode('latin-1'), cuts=cuts))
+                declared=declared, wire=wire_bytes.decode('latin-1'), cuts=cuts,
+                payload=payload.decode('latin-1') if checksummed and label != 'valid'
+                else None))
 
     if job['kind'] == 'splits':
         if n - 1 <= job['full_limit']:
@@ -239,7 +257,8 @@ def run_job(job):
         for t in range(0, n):
             muts.append(('trunc@%d' % t, wire[:t]))
         for i in range(n):
-            for nb in {0x00, 0xff, wire[i] ^ 0x01}:
+            # the first two bytes decide which format the decoder assumes: every value
+            for nb in (range(256) if i < 2 else {0x00, 0xff, wire[i] ^ 0x01}):
                 if nb != wire[i]:
                     muts.append(('subst@%d' % i, wire[:i] + bytes([nb]) + wire[i + 1:]))
         for label, w in muts:
@@ -447,6 +466,10 @@ def replay(rec):
     ref = reference(rec['declared'], wire)
     bad = got != one or (ref[0] == 'err' and got[0] == 'ok') or \
         (ref[0] == 'ok' and got != ref)
+    if rec.get('payload') is not None and wire and got[0] == 'ok' and \
+            got[1] != rec['payload'].encode('latin-1') and \
+            not (rec['declared'] == 'gzip' and wire[:1] != b'\x1f'):
+        bad = True
     return (rec['violation'] if bad else None), rec['signature'] if bad else None, \
         [show(got), show(one), show(ref)]
 
